@@ -140,7 +140,7 @@ def kMxfp : Call := ⟨"e4m3mxfp=1000", false, true, false⟩
 def kUe : Call := ⟨"ue=3", true, false, false⟩
 def kLit (s : String) : Call := ⟨s, false, false, false⟩
 
-/-- Known deviation 1: `Bits('e4m3mxfp=1000')`, `options.mxfp_overflow = 'overflow'`, `Bits('e4m3mxfp=1000')` —
+/-- Without invalidation (deviation 1 of the tree before a428504): `Bits('e4m3mxfp=1000')`, `options.mxfp_overflow = 'overflow'`, `Bits('e4m3mxfp=1000')` —
     the second construction returns the saturate-mode result. -/
 theorem stale_after_mxfp_overflow_change :
     let h := [Op.call kMxfp, .setOpt .mxfp true, .call kMxfp]
@@ -148,7 +148,7 @@ theorem stale_after_mxfp_overflow_change :
     reuse_after_option_change (strCfg 256 false) Opts.init h = true := by
   decide
 
-/-- Known deviation 2: `Bits('ue=3')`, `options.lsb0 = True`, `Bits('ue=3')` — served from the cache where it
+/-- Without invalidation (deviation 2 of the tree before a428504): `Bits('ue=3')`, `options.lsb0 = True`, `Bits('ue=3')` — served from the cache where it
     must raise. -/
 theorem stale_after_lsb0_change :
     let h := [Op.call kUe, .setOpt .lsb0 true, .call kUe]
@@ -190,7 +190,7 @@ theorem str_to_bitstore_pure_when_invalidating (cap : Nat) (ops : List (Op Call)
 theorem sys_capacity (cfg : SysCfg) (ops : List SysOp) : SysBounded cfg (sysRun cfg (Sys.init cfg) ops).1 :=
   sysBounded_run cfg ops (Sys.init cfg) (sysBounded_init cfg)
 
-/-- The seven caches whose functions read no option are correct on ALL histories of the code as pinned:
+/-- The seven caches whose functions read no option are correct on ALL histories, whatever the setters clear:
     whatever was called, evicted or assigned before, a call returns what its function computes. -/
 theorem sys_pure_caches_correct (cfg : SysCfg) (ops : List SysOp) (cid : CacheId) (o : Opts) (a : Call)
     (r : Except Err Val) (hc : cid ≠ .strToBitstore)
